@@ -121,20 +121,8 @@ def recv_half(r, F):
     check_fn(r, F, 'recv_close', [('-', {})], lambda s, l: R.ref_recv_close(s), 'recv END_STREAM')
     check_fn(r, F, 'reserve_remote', [('-', {})], lambda s, l: R.ref_reserve(s, 'remote'), 'recv PUSH_PROMISE (promised stream)')
 
-    def ref_close(s, l):
-        if R.to_rfc(s)[0] == 'closed':
-            return ('unit', s)
-        return ('unit', E(SI, 'Closed', (E(CA, 'Error', (TOP,)),)))
-    check_fn(r, F, 'handle_error', [('-', {})], ref_close, 'connection error')
-    check_fn(r, F, 'recv_eof', [('-', {})], ref_close, 'EOF')
-
-    def ref_recv_reset(s, l):
-        queued = l == 'queued=true'
-        if R.to_rfc(s)[0] == 'closed' and not queued:
-            return ('unit', s)
-        cause = 'ErrorAfterEndStream' if R.recv_end_stream_seen(s) else 'Error'
-        return ('unit', E(SI, 'Closed', (E(CA, cause, (TOP,)),)))
-    check_fn(r, F, 'recv_reset', [('queued=false', {3: B(False)}), ('queued=true', {3: B(True)})], ref_recv_reset, 'recv RST_STREAM')
+    enders(r, F)
+    recv_reset_rows(r, F)
     predicates(r, F, ['is_recv_streaming', 'is_recv_headers', 'is_recv_end_stream'])
     # ensure_recv_open: Closed(Error) -> Err, scheduled reset -> Err, end-of-stream-seen or reserved(local) -> Ok(false), else Ok(true)
     f = r.fn(SP + 'ensure_recv_open')
@@ -154,3 +142,30 @@ def recv_half(r, F):
 
 def _skelw(v):
     return _skel(v)
+
+
+def enders(r, F):
+    """connection error / EOF: every non-closed state becomes Closed(Error); a closed state (in particular a cleanly
+    ended one, Closed(EndStream)) is left alone so a complete message is still delivered"""
+    from .rfcstates import E, SI, CA
+
+    def ref_close(s, l):
+        if R.to_rfc(s)[0] == 'closed':
+            return ('unit', s)
+        return ('unit', E(SI, 'Closed', (E(CA, 'Error', (TOP,)),)))
+    check_fn(r, F, 'handle_error', [('-', {})], ref_close, 'connection error')
+    check_fn(r, F, 'recv_eof', [('-', {})], ref_close, 'EOF')
+
+
+def recv_reset_rows(r, F):
+    """RST_STREAM received: closed-and-nothing-queued states stay; otherwise Closed(ErrorAfterEndStream) iff END_STREAM
+    had been received (whatever the reset code), else Closed(Error)"""
+    from .rfcstates import E, SI, CA
+
+    def ref_recv_reset(s, l):
+        queued = l == 'queued=true'
+        if R.to_rfc(s)[0] == 'closed' and not queued:
+            return ('unit', s)
+        cause = 'ErrorAfterEndStream' if R.recv_end_stream_seen(s) else 'Error'
+        return ('unit', E(SI, 'Closed', (E(CA, cause, (TOP,)),)))
+    check_fn(r, F, 'recv_reset', [('queued=false', {3: B(False)}), ('queued=true', {3: B(True)})], ref_recv_reset, 'recv RST_STREAM')
